@@ -196,11 +196,11 @@ def sites():
             fn = enclosing(funcs, pos)
             fn_text = src[fn[1]:fn[2]] if fn else src
             cls = classify(fn_text, pos - (fn[1] if fn else 0), text)
-            if cls in ("ordered", "collected-unsorted"):
-                # the review of such a walk is a review of what the function does with the elements afterwards:
-                # the class carries a digest of the whole function, so an edit anywhere in it asks for a new review
-                import hashlib
-                cls += " @" + hashlib.sha1(re.sub(r"\s+", "", fn_text).encode("utf-8")).hexdigest()[:10]
+            # the review of a walk is a review of what the function does with the elements, before and after any
+            # sort (a loop that keeps "the first one seen" and sorts afterwards is still order-dependent): every
+            # class carries a digest of the whole function, so an edit anywhere in it asks for a new review
+            import hashlib
+            cls += " @" + hashlib.sha1(re.sub(r"\s+", "", fn_text).encode("utf-8")).hexdigest()[:10]
             out.append((rel, fname, text, cls))
     return out
 
